@@ -98,6 +98,32 @@ theorem printed_script_lexes_to_its_tokens_live (text : Bytes) (prev : PState) (
   printed_script_lexes_to_its_tokens _ live_table_reprintable.1 live_table_printable live_table_reprintable.2.1
     live_table_reprintable.2.2 text prev r h out hs
 
+/-- **values survive**: every scalar value recorded under a name in a top-level command of an accepted script is, byte for
+    byte, a token of the printed text, of the kind it is read as -/
+theorem recorded_values_are_tokens_of_the_printed_text (T : Table) (hL : Reprint.TableL T) (hP : Printable.TableP T)
+    (hT : Typed.TableT T) (hN : Roles.TableN T) (text : Bytes) (prev : PState) (r : List Node)
+    (h : Machine.parse T text prev = .accept r) (out : Bytes) (hs : Ser.script T r = some out) :
+    ∃ lr, Lex.lex out = some lr ∧ lr.err = none ∧
+      ∀ n ∈ r, ∀ k v, assocGet n.args k = some (.str k v) → ∃ tok ∈ lr.toks, tok.text = v ∧ tok.kind = Reprint.kindOf v := by
+  obtain ⟨lr, h1, h2, h3⟩ := printed_script_lexes_to_its_tokens T hL hP hT hN text prev r h out hs
+  refine ⟨lr, h1, h2, ?_⟩
+  intro n hn k v hk
+  obtain ⟨lr0, _, hnt⟩ := Typed.accepted_tree_typed hT text prev r h
+  have hmem : (Reprint.kindOf v, v) ∈ Reprint.flatNs T r := by
+    apply Reprint.flatN_sub_flatNs T r n hn
+    cases hnt n hn with
+    | mk name args extra children comments d hnamed hname hargs hextra hkids htest htests =>
+      have hd : d ∈ T := Typed.named_mem hnamed
+      have hbn : T.byName name = some d := by rw [← hname]; exact Printable.defP_byName (hP d hd)
+      have hin : Arg.str k v ∈ args := List.mem_of_find?_eq_some hk
+      obtain ⟨a, ha, hak, _⟩ := hargs _ hin
+      exact Reprint.recorded_value_in_flatN T name args extra children comments d hbn k v hk a ha hak
+  rw [← h3] at hmem
+  simp only [List.mem_map] at hmem
+  obtain ⟨tok, htok, hkt⟩ := hmem
+  simp only [Lex.kt, Prod.mk.injEq] at hkt
+  exact ⟨tok, htok, hkt.2, hkt.1⟩
+
 /-- the printed text never contains a byte sequence that is no token -/
 theorem printed_script_has_no_lexical_error (text : Bytes) (prev : PState) (r : List Node)
     (h : Machine.parse Generated.builtinTable text prev = .accept r) (out : Bytes) (hs : Ser.script Generated.builtinTable r = some out) :
